@@ -2,6 +2,7 @@ import Bmc.Lemmas.SessionProps
 import Bmc.Lemmas.SessionlessSpec
 import Bmc.Lemmas.ResponseAccepted
 import Bmc.Lemmas.HandshakeLoss
+import Bmc.Lemmas.SessionlessLive
 /-! # C10 — retries re-send the same well-formed request until a final answer arrives (property theorems only)
 
 `expected` / `slExpected` are the documented contract as a fold over the per-attempt outcomes: the first reply that
@@ -111,6 +112,24 @@ theorem handshake_payload_retries (C : Ops) (o : Opts) (rm : Bytes) (j1 j2 j3 : 
         List.replicate (j1.length + 1) d1 ++ List.replicate (j2.length + 1) d2 ++ List.replicate (j3.length + 1) d3 :=
   ⟨newSession_skips C o rm j1 j2 j3 r1 r2 r3 tail h1 h2 h3 e1 e2 e3,
    fun d1 d2 d3 hb => newSession_retransmits C o rm j1 j2 j3 r1 r2 r3 tail h1 h2 h3 e1 e2 e3 d1 d2 d3 hb⟩
+
+/-- SESSION-LESS RETRY LIVENESS: outside a session, any number of lost replies, conforming responses with a temporary
+    completion code and conforming responses to OTHER operations (each `SlNoise`) are each followed by a retransmission
+    of the one serialised datagram, and the first conforming response to the pending command with another completion
+    code ends the call with that code and data — whatever the BMC put in the wrapper's session ID / sequence fields -/
+theorem sessionless_retries_until_final (c : Cmd) (hf : c.reqFails = false) (noise : List Outcome) (hn : ∀ o ∈ noise, SlNoise c o)
+    (sid seq : Nat) (cc : UInt8) (data : Bytes) (rest : List Outcome) (hm : (responseMsg c cc).WF) (hsid : sid < 4294967296)
+    (hseq : seq < 4294967296) (hlen : (responseBytes c cc data).length < 65536) (hnt : isTemp cc = false) :
+    slSend c (noise ++ .reply (slResponseDatagramWith sid seq c cc data) :: rest) =
+      (List.replicate (noise.length + 1) (slSerialize c).2, .ok cc data) := by
+  have h := sessionless_send_refines c hf (noise ++ .reply (slResponseDatagramWith sid seq c cc data) :: rest)
+  have he : slExpected (slClassify c) (noise ++ .reply (slResponseDatagramWith sid seq c cc data) :: rest) = (noise.length + 1, .ok cc data) := by
+    rw [slExpected_noise c noise hn]
+    simp only [slExpected, slClassify_response_with sid seq c cc data hm hsid hseq hlen, hnt, Bool.false_eq_true, if_false,
+      Prod.mk.injEq, and_true]
+    omega
+  rw [he] at h
+  exact Prod.ext h.2 h.1
 
 example : expected (fun d => if d = [1] then Class.final 0 [9] else .retry) [.reply [2], .reply [1], .lost] = (2, .ok 0 [9]) := by
   decide
